@@ -245,6 +245,9 @@ func (l *lexer) run() {
 				l.col += w
 				l.ignore()
 				l.inVerbatim = false
+				// Look at the input following the block from scratch
+				// (it might be another verbatim block)
+				continue
 			}
 		} else if strings.HasPrefix(l.input[l.pos:], "{% verbatim %}") { // tag
 			if l.pos > l.start {
@@ -255,6 +258,8 @@ func (l *lexer) run() {
 			l.pos += w
 			l.col += w
 			l.ignore()
+			// The block might be empty, so check for its end first
+			continue
 		}
 
 		if !l.inVerbatim {
